@@ -37,6 +37,7 @@ META = {
 }
 META["technique"] += "; sibling comparator unless/if (method by method after renaming); integer-exactness rule on the math filters' int branches"
 META["technique"] += "; operator-semantics lint: truncating Decimal remainder beside a flooring integer branch"
+META["technique"] += '; stringifier-use lint in the filters (str() of a parameter followed to the output); truthiness-by-membership lint'
 
 COUNT_SOURCES = {"render", "render_async", "render_with_context", "render_with_context_async", "write", "render_to_output", "render_to_output_async"}
 EX = "liquid2/builtin/expressions.py"
@@ -380,6 +381,14 @@ def run(prog: Program, res: Result) -> None:  # noqa: PLR0912, PLR0915
     from checks.shared import check_decimal_remainder
 
     check_decimal_remainder(prog, res, "C01.R20")
+    res.rule("C01.R21", "text a filter adds to its result is spelt as an output statement spells it: no filter parameter is turned into text with the builtin str() and then concatenated, joined, sliced or returned (Python's `True` / `None` where Liquid's are `true` / the empty string) - to_liquid_string() is the one stringifier; str() that only feeds a key lookup, a number parser or a comparison, or that is applied under an isinstance(str / number) test, is left alone")
+    from checks.shared import check_filter_text_spelling
+
+    check_filter_text_spelling(prog, res, "C01.R21")
+    res.rule("C01.R22", "Liquid truth is identity with false and nil - 0, 0.0 and the empty string are truthy: no filter decides the truth of a data value by membership in a tuple holding True / False (`x not in (False, None)` compares with ==, and 0 == False), is_truthy() is the test; a membership test reached only after numbers were returned is left alone")
+    from checks.shared import check_truthiness_by_membership
+
+    check_truthiness_by_membership(prog, res, "C01.R22")
     res.rule("C01.R16", "a template string evaluates to text, whatever it interpolates and however many parts it has: every return of TemplateString.evaluate[_async] is `<sep>.join(<stringifier>(part) …)` - no short cut that hands back a part's raw value")
 
     _template_string_is_text_rule(prog, res)
